@@ -179,9 +179,6 @@ def stepHist (maxSizeS evS impl : String) (compare : Bool) : String :=
     match checkFinal lens verdicts with
     | some why => specViol why
     | none =>
-      if !compare then ok "history-racy" (evs.length ≥ 2) else
-      let w0 : World := { lens := lens, entries := List.replicate lens.length none }
-      let (outs, _) := World.run maxSize evs w0
       -- a cached read must itself be the uncached sequence (checked on the implementation's output)
       let badCached := (evs.zip groups).findSome? fun (e, g) =>
         match e with
@@ -195,6 +192,9 @@ def stepHist (maxSizeS evS impl : String) (compare : Bool) : String :=
       match badCached with
       | some why => specViol why
       | none =>
+        if !compare then ok "history-property-only" (evs.length ≥ 2 && groups.any (·.startsWith "c")) else
+        let w0 : World := { lens := lens, entries := List.replicate lens.length none }
+        let (outs, _) := World.run maxSize evs w0
         let expected := if outs.isEmpty then "-" else ";".intercalate outs
         let got := if groups.isEmpty then "-" else ";".intercalate groups
         if got != expected then modelDiff expected
@@ -227,6 +227,8 @@ def step (c impl : String) : String :=
   match fields c with
   | ["h", m, evs] => stepHist m evs impl true
   | ["hr", m, evs] => stepHist m evs impl false
+  | ["hv", m, evs] => stepHist m evs impl false     -- V2 cache: property only (every final read is the uncached sequence)
+  | ["hvr", m, evs] => stepHist m evs impl false
   | ["hs", evs] => stepHist "100" evs impl false
   | ["as", f, ops] => stepAssume f ops impl
   | ["as", f] => stepAssume f "-" impl
